@@ -198,6 +198,37 @@ pub fn run_ctx(tier: &str, seed: u64, out: &mut Out) {
     }
 }
 
+/// identifier-shaped constants: object keys (named and shorthand), static member names, data field names, template data
+/// field names - for names over the whole identifier alphabet of the expression grammar (letters, digits, `_`, `$` in any
+/// position but the digits, keywords as prefixes)
+pub fn run_identctx(_tier: &str, _seed: u64, out: &mut Out) {
+    let names = [
+        "a$b", "price$", "k$1", "$", "$_", "_$0x", "A_1", "$$", "a$$b", "typeof$x", "void$", "in$", "true$", "null_",
+        "undefined1", "thisx", "_", "__", "x9", "Z", "new$", "$typeof", "instanceof_", "if", "class", "k_$_9",
+    ];
+    for (i, n) in names.iter().enumerate() {
+        let keyword = matches!(*n, "if" | "class");
+        // keywords are legal as keys and member names only
+        let src = if keyword {
+            format!("<v a=\"{{{{ {{{n}: 1}} }}}}\" b=\"{{{{ o.{n} }}}}\" model:mo=\"{{{{ o.{n} }}}}\"/>", n = n)
+        } else {
+            format!(
+                concat!(
+                    "<v a=\"{{{{ {{{n}: 1, q: {n}}} }}}}\" s=\"{{{{ {{{n}}} }}}}\" b=\"{{{{ o.{n} }}}}\" c=\"{{{{ {n} }}}}\" model:mo=\"{{{{ o.{n} }}}}\"/>",
+                    "<template name=\"t\"><w k=\"{{{{ {n} }}}}\"/></template><template is=\"t\" data=\"{{{{ {n}: o.{n} }}}}\"/>"
+                ),
+                n = n
+            )
+        };
+        let mut g = TmplGroup::new();
+        let diags = { crate::util::note_input(&*src); g.add_tmpl("p", &src) };
+        let max_level = diags.iter().map(|d| d.kind.level() as u8).max().unwrap_or(0);
+        let bundle = g.get_tmpl_gen_object_groups().unwrap_or_default();
+        let job = serde_json::json!({"kind": "identctx", "id": i, "name": n, "keyword": keyword, "src": src, "max_level": max_level, "bundle": bundle, "path": "p"});
+        out.raw(&job.to_string());
+    }
+}
+
 /// named character references: names on stdin (one per line, without & and ;), output name \t decoded
 /// code points (hook level) and, per batch of 40, the text nodes the runtime-visible parse produces
 pub fn run_entnames(out: &mut Out) {
